@@ -72,7 +72,7 @@ def make_classes():
     from vivarium.core.registry import emitter_registry
 
     class Scripted(Process):
-        defaults = {'pid': 0, 'ts': ['const', 1.0], 'cond': ['true'], 'time_step': 1.0}
+        defaults = {'pid': 0, 'ts': ['const', 1.0], 'cond': ['true'], 'time_step': 1.0, 'flip': False}
 
         def __init__(self, parameters=None):
             super().__init__(parameters)
@@ -87,9 +87,12 @@ def make_classes():
             self._upd = logging_updater
 
         def ports_schema(self):
-            return {
+            sch = {
                 'shared': {'count': {'_default': 0, '_emit': True}},
                 'own': {'elapsed': {'_default': 0.0, '_emit': True, '_updater': self._upd}}}
+            if self.parameters.get('flip'):
+                sch = dict(reversed(list(sch.items())))      # same ports, other listing order
+            return sch
 
         def calculate_timestep(self, states):
             mode, arg = self.parameters['ts'][0], self.parameters['ts'][1]
@@ -153,9 +156,15 @@ def run_impl(c, timeout=3):
         _SCRIPTED = make_classes()
     Scripted, NullStep = _SCRIPTED
     n = len(c['procs'])
-    processes = {'p%d' % i: Scripted({'pid': i, 'ts': p['ts'], 'cond': p['cond']})
-                 for i, p in enumerate(c['procs'])}
-    topology = {'p%d' % i: {'shared': ('shared',), 'own': ('own%d' % i,)} for i in range(n)}
+    order = c.get('order') or list(range(n))          # insertion order of the processes / topology dicts
+    flip = bool(c.get('flip'))
+    processes = {'p%d' % i: Scripted({'pid': i, 'ts': c['procs'][i]['ts'], 'cond': c['procs'][i]['cond'], 'flip': flip})
+                 for i in order}
+    topo_order = list(reversed(order)) if flip else order
+    topology = {}
+    for i in topo_order:
+        ports = {'shared': ('shared',), 'own': ('own%d' % i,)}
+        topology['p%d' % i] = dict(reversed(list(ports.items()))) if flip else ports
     groups = []
     CTX['log'] = []
     old = signal.signal(signal.SIGALRM, _alarm)
